@@ -18,7 +18,7 @@ pub fn n_cases(ctx: &Ctx) -> u64 {
     let base = match (ctx.variant.as_str(), ctx.thorough()) {
         ("dbg", false) => 300,
         ("dbg", true) => 3000,
-        (_, false) => 4000,
+        (_, false) => 10000,
         (_, true) => 50000,
     };
     STEER + ctx.scaled(base)
